@@ -1468,20 +1468,50 @@ func (e *Enc) specDefs() string {
 		}
 		if !progress && !recEmitted {
 			// emit the recursive block once all non-recursive functions it may call are out
-			var decls, bodies []string
+			var decls, bodies, recax, recaxAx []string
 			for _, n := range names {
 				s := e.specSigs[n]
 				if emitted[n] || !recursive(n) {
 					continue
 				}
-				ps, _ := sig(s)
+				ps, sorts := sig(s)
 				decls = append(decls, fmt.Sprintf("(%s (%s) %s)", s.smt, ps, s.retS))
 				bodies = append(bodies, s.body)
 				emitted[n] = true
+				// the same definition as an uninterpreted function with a triggered unfolding
+				// axiom (alternative script variant, see recaxScript): kept as comment lines
+				var anames []string
+				for _, p := range s.params {
+					anames = append(anames, p.T)
+				}
+				for _, r := range s.reads {
+					anames = append(anames, "h!"+r)
+				}
+				callT := "(" + s.smt + " " + strings.Join(anames, " ") + ")"
+				for _, r := range s.reads {
+					sorts = append(sorts, e.W.comps[r].Sort)
+				}
+				body := strings.ReplaceAll(s.body, "\n", " ")
+				if reach[n][n] && os.Getenv("VERIF_NOFUEL") == "" {
+					// recursive: fuel-indexed unfolding (two levels from the terms of the query),
+					// so that E-matching on the unfolding axiom cannot run away
+					fsorts := append([]string{"Fuel"}, sorts...)
+					recax = append(recax, fmt.Sprintf(";;recax-rec %s", s.smt))
+					recax = append(recax, fmt.Sprintf(";;recax (declare-fun %s (%s) %s)", s.smt, strings.Join(fsorts, " "), s.retS))
+					callS := "(" + s.smt + " (FS fu!) " + strings.Join(anames, " ") + ")"
+					callP := "(" + s.smt + " fu! " + strings.Join(anames, " ") + ")"
+					recaxAx = append(recaxAx, fmt.Sprintf(";;recax-body (assert (forall ((fu! Fuel) %s) (! (= %s %s) :pattern (%s))))", ps, callS, body, callS))
+					recaxAx = append(recaxAx, fmt.Sprintf(";;recax-syn (assert (forall ((fu! Fuel) %s) (! (= %s %s) :pattern (%s))))", ps, callS, callP, callS))
+				} else {
+					recax = append(recax, fmt.Sprintf(";;recax (declare-fun %s (%s) %s)", s.smt, strings.Join(sorts, " "), s.retS))
+					recaxAx = append(recaxAx, fmt.Sprintf(";;recax (assert (forall (%s) (! (= %s %s) :pattern (%s))))", ps, callT, body, callT))
+				}
 			}
 			recEmitted = true
 			if len(decls) > 0 {
 				out = append(out, "(define-funs-rec ("+strings.Join(decls, "\n  ")+")\n ("+strings.Join(bodies, "\n  ")+"))")
+				out = append(out, recax...)
+				out = append(out, recaxAx...)
 				progress = true
 			}
 		}
